@@ -75,6 +75,9 @@ HAND = [
     ("diels-alder", "[CH2:1]=[CH:2][CH:3]=[CH2:4].[CH2:5]=[CH2:6]>>[CH2:1]1[CH:2]=[CH:3][CH2:4][CH2:5][CH2:6]1"),
     ("hydrogenation", "[CH2:1]=[CH2:2].[H:3][H:4]>>[CH2:1]([H:3])[CH2:2][H:4]"),
     ("hydrogenation-ketone", "[CH3:1][C:2](=[O:3])[CH3:4].[H:5][H:6]>>[CH3:1][C:2]([H:5])([O:3][H:6])[CH3:4]"),
+    # one donor atom gives two hydrogens to two recipients (one h_pairs component with two recipients: first-fit pairing of _explicit_h)
+    ("double-donor", "[S:1]([H:4])[H:5].[CH2:2]=[CH2:3]>>[S:1].[CH2:2]([H:4])[CH2:3][H:5]"),
+    ("double-donor-amine", "[CH3:6][N:1]([H:4])[H:5].[CH2:2]=[CH2:3]>>[CH3:6][N:1].[CH2:2]([H:4])[CH2:3][H:5]"),
     ("amide-charge", "[CH3:1][C:2](=[O:3])[Cl:4].[NH2-:5]>>[CH3:1][C:2](=[O:3])[NH2:5].[Cl-:4]"),
 ]
 
